@@ -83,6 +83,14 @@ pub fn property() -> Property {
                 check,
                 health: &[],
             }),
+            Box::new(Sub {
+                name: "real-codes",
+                rule: "the toolbox's own codes (DVB-S2 short 1/2 and 8/9, AR4JA k=1024 rate 1/2 and 4/5 with their punctured block as exact zeros), a codeword from an own encoder / null-space sample, deterministic AWGN from the case seed with sigma around the decoding threshold (0.2..2.0), limits {0,1,5,20,50}; the same validity predicate for all 36 implementations; non-trivial = limit >= 1",
+                cases: |t| t.pick(48, 2_000),
+                strategy: super::realcodes::strategy,
+                check: super::realcodes::check_c01,
+                health: &[],
+            }),
         ],
         assumptions: vec![
             "a failure result for an input whose sign pattern is a codeword is not judged (the statement constrains successes and failures with limit >= 1 only)".into(),
